@@ -264,6 +264,42 @@ class _SwapAssigns(ast.NodeTransformer):
         return node
 
 
+class _AugExpand(ast.NodeTransformer):
+    """x += e  ->  x = x + e   for a local name x and a scalar-looking e (a number, a name or a
+    call-free arithmetic expression).  For immutable scalars (counters, offsets) the two are the
+    same statement; targets that are arrays in this code base (subscripts, attributes, names
+    assigned from array constructors) are left alone because `+=` on an array is an in-place
+    operation and the expansion is not."""
+
+    OPS = {ast.Add: ast.Add, ast.Sub: ast.Sub, ast.Mult: ast.Mult}
+
+    def visit_FunctionDef(self, node):
+        self.generic_visit(node)
+        arrays = set()
+        for n in ast.walk(node):
+            if isinstance(n, ast.Assign) and len(n.targets) == 1 and \
+                    isinstance(n.targets[0], ast.Name) and isinstance(n.value, ast.Call):
+                arrays.add(n.targets[0].id)          # anything produced by a call may be an array
+        params = set(a.arg for a in node.args.args + node.args.kwonlyargs)
+
+        class T(ast.NodeTransformer):
+            def visit_AugAssign(s, a):
+                if isinstance(a.target, ast.Name) and type(a.op) in _AugExpand.OPS and \
+                        a.target.id not in arrays and a.target.id not in params and \
+                        isinstance(a.value, ast.Constant) and \
+                        isinstance(a.value.value, (int, float)) and \
+                        not isinstance(a.value.value, bool):
+                    return ast.copy_location(ast.Assign(
+                        targets=[ast.Name(id=a.target.id, ctx=ast.Store())],
+                        value=ast.BinOp(left=ast.Name(id=a.target.id, ctx=ast.Load()),
+                                        op=type(a.op)(), right=a.value)), a)
+                return a
+
+            def visit_FunctionDef(s, f):
+                return f if f is not node else s.generic_visit(f)
+        return T().visit(node)
+
+
 class _MergeIfs(ast.NodeTransformer):
     """if a:\n    if b: body   ->   if a and b: body          (no else branches)"""
 
@@ -342,6 +378,8 @@ def neutral_variants(text):
         out.append(('merge-nested-ifs', ast.unparse(t) + '\n'))
         t = ast.fix_missing_locations(_SwapAssigns().visit(ast.parse(text)))
         out.append(('swap-independent-assignments', ast.unparse(t) + '\n'))
+        t = ast.fix_missing_locations(_AugExpand().visit(ast.parse(text)))
+        out.append(('expand-augmented-assignment', ast.unparse(t) + '\n'))
     except Exception as e:   # pragma: no cover
         out.append(('rewrite-error', None))
     return out
